@@ -24,6 +24,7 @@ func init() {
 			"C01.R2 stream bookkeeping congruences (E3) in every function that stores the stream buffer; TimeOf formula",
 			"C01.R3 call order by dominance and SSA value flow in the segment pipeline; go/Wait ordering in the block fan-out",
 			"C01.R4 who-may-write fields reached through a DataStream",
+			"C01.R5 origins of the error values that reach a panic in the block path (backward over phis, result cells, module callees' returns): none is made under a test of the length of a record's sample slice",
 		},
 		Run: runC01,
 	})
@@ -59,6 +60,8 @@ func runC01(p *Prog, r *Report) {
 	c01R2(p, r)
 	c01R3(p, r)
 	c01R4(p, r)
+	r.MinInstances["C01.R5"] = 2
+	c01R5(p, r)
 }
 
 // ---- R1 -----------------------------------------------------------------------------------
